@@ -199,24 +199,25 @@ package fstree
 // what it hands out - the buffered prefix plus the rest of the stream - is exactly that
 // entry: the stream is bounded and prefix length + stream limit == entry length.
 
+// (C11 too: a ranged read of an entry of a combined file is served from this prefix and stream.)
 //@ ghost field entryMatched(x int) bool
 //@ callrule c10_entry_match in (*FSTree).readHeader
-//@   property C10
+//@   property C10 C11
 //@   callee bytes.Equal
 //@   pureeffect
 //@   assigns entryMatched
 //@   ensures entryMatched(0) == result
 //@ callrule c10_read_header_collaborators in (*FSTree).readHeader
-//@   property C10
+//@   property C10 C11
 //@   callee (*os.File).Seek, fstree.parseCombinedPrefix, errors.Is
 //@   pureeffect
 //@ callrule c10_read_full_count in (*FSTree).readHeader
-//@   property C10
+//@   property C10 C11
 //@   callee io.ReadFull
 //@   pureeffect
 //@   ensures 0 <= res0 && res0 <= len(a1)
 //@ func (*FSTree).readHeader
-//@   property C10
+//@   property C10 C11
 //@   valid !entryMatched(0)
 //@   requires [buffer_of_two_header_lengths] len(buf) >= 40960
 //@   loop 1 invariant 0 <= offset && offset <= n + 38 && 0 <= n && n <= len(buf) && !entryMatched(0)
